@@ -233,6 +233,17 @@ Section BlockTie.
 
   Lemma absolute_branch_local : block_inflow_absolute_branch_is_local = true.
   Proof. reflexivity. Qed.
+
+  (* Model/BlockAlg.v: which records the absolute pass visits, which children the hidden pass visits *)
+  Lemma abs_pass_filter_is_generated (it : Item T) ct :
+    position_is_absolute (it_position it) = block_absolute_pass_visits (gpos (it_position it)) ct.
+  Proof. destruct (it_position it); reflexivity. Qed.
+
+  Lemma hidden_pass_is_generated (s : BStyle T) p : s_hidden bs_bgm s = block_hidden_pass_visits (bs_bgm s) p.
+  Proof. unfold s_hidden, g_is_none. destruct (bs_bgm s); reflexivity. Qed.
+
+  Lemma tree_calls_local : block_tree_calls_address_item_only = true.
+  Proof. reflexivity. Qed.
 End BlockTie.
 
 (* ------------------------------------------------------------------ Model/Placement.v: its filters ARE the generated ones *)
